@@ -365,6 +365,38 @@ func judge(c *Case, dir string) (v verdict) {
 			return
 		}
 	}
+	// A path that is not requested must have its content available: nothing
+	// was staged before (no interrupted earlier stage), so a file with that
+	// digest must exist in the root as it is now.
+	if !c.Interrupt {
+		inRoot := map[string]bool{}
+		var collect func(n *disk.Node)
+		collect = func(n *disk.Node) {
+			if n == nil {
+				return
+			}
+			if n.Kind == disk.File {
+				inRoot[string(c.digest(n.Data))] = true
+			}
+			for _, name := range n.Names() {
+				collect(n.Children[name])
+			}
+		}
+		collect(before)
+		for _, p := range request {
+			w := wantAt[p]
+			if w == nil || inFiltered[p] {
+				continue
+			}
+			if !inRoot[string(c.digest(contentFor(w.Content)))] {
+				v.c41 = fmt.Sprintf("staging does not request %q although nothing was staged before and no file with its digest %x exists in the root at the time of the call (files modified after the scan: %v)", p, c.digest(contentFor(w.Content)), anyTouched)
+				return
+			}
+			if anyTouched {
+				v.nt41 = true
+			}
+		}
+	}
 	if c.Double == "stage" && len(request) > 0 {
 		v.nt41 = true
 		if _, _, _, err := ep.Stage(append([]string{}, request...), digests); err == nil {
